@@ -14,6 +14,7 @@ R11.5  GUID byte order is the RFC 4122 bytes_le permutation (symbolic evaluation
 from __future__ import annotations
 
 import ast
+import re
 
 from ..core import (AnalysisError, Report, call_name, find_class, find_func, need, norm, short,
                     ancestors)
@@ -161,28 +162,67 @@ def r11_4(rep: Report) -> None:
     cls = need(find_class(tree, 'ClearkeyHandler'), 'ClearkeyHandler')
     fn = need(find_func(cls, 'post'), 'ClearkeyHandler.post')
     c = f'{CK}::ClearkeyHandler.post'
-    appends = [n for n in ast.walk(fn) if isinstance(n, ast.Call) and isinstance(n.func, ast.Attribute)
-               and n.func.attr == 'append' and norm(n.func.value) == 'keys']
-    if not appends:
-        raise AnalysisError('ClearkeyHandler.post: keys.append not found')
-    for a in appends:
-        g = guards_of(a, fn)
-        loop = [x for x in g if x.startswith('for ')]
-        if loop and 'models.Key.get_kids(' in loop[-1]:
-            rep.ok(rid, c, f'keys only from the lookup @{short(a, 40)}', loop[-1])
+    # the "keys" member of the response: every element is built inside an iteration over
+    # models.Key.get_kids(<requested kids>) - a loop with append or a comprehension
+    from ..core import subst_locals
+    sources: list[tuple[ast.AST, ast.AST, ast.AST]] = []      # (iteration target, iterable, element expr)
+    outside: list[ast.AST] = []
+    res_dicts = [n for n in ast.walk(fn) if isinstance(n, ast.Dict)
+                 and any(isinstance(k, ast.Constant) and k.value == 'keys' for k in n.keys)]
+    if not res_dicts:
+        raise AnalysisError('ClearkeyHandler.post: response with a "keys" member not found')
+    for d in res_dicts:
+        v = next(v for k, v in zip(d.keys, d.values) if isinstance(k, ast.Constant) and k.value == 'keys')
+        filled = isinstance(v, ast.Name) and any(
+            isinstance(n, ast.Call) and isinstance(n.func, ast.Attribute)
+            and n.func.attr in ('append', 'extend', 'insert') and norm(n.func.value) == v.id for n in ast.walk(fn))
+        if not filled:
+            v = subst_locals(fn, v, allow_calls=True)
+        if isinstance(v, (ast.ListComp, ast.GeneratorExp)) or (
+                isinstance(v, ast.Call) and call_name(v) == 'list' and v.args
+                and isinstance(v.args[0], (ast.ListComp, ast.GeneratorExp))):
+            comp = v if not isinstance(v, ast.Call) else v.args[0]
+            if len(comp.generators) == 1:
+                sources.append((comp.generators[0].target, comp.generators[0].iter, comp.elt))
+            else:
+                outside.append(comp)
+        elif isinstance(v, ast.Name):
+            apps = [n for n in ast.walk(fn) if isinstance(n, ast.Call) and isinstance(n.func, ast.Attribute)
+                    and n.func.attr in ('append', 'extend', 'insert') and norm(n.func.value) == v.id]
+            if not apps:
+                raise AnalysisError(f'ClearkeyHandler.post: `{v.id}` is never filled')
+            for ap in apps:
+                loop = next((x for x in ancestors(ap) if isinstance(x, ast.For)), None)
+                if loop is None or ap.func.attr != 'append':
+                    outside.append(ap)
+                else:
+                    elt = subst_locals(loop, ap.args[0], allow_calls=True)
+                    sources.append((loop.target, loop.iter, elt))
         else:
-            rep.fail(rid, c, f'keys only from the lookup @{short(a, 40)} under {g}',
-                     f'a key entry is appended under {g}, outside the iteration over '
-                     'models.Key.get_kids(requested kids)', a)
+            outside.append(v)
+    for tgt, it, elt in sources:
+        key = f'keys only from the lookup @{short(elt, 40)}'
+        if 'models.Key.get_kids(' in norm(it):
+            rep.ok(rid, c, key, f'for {norm(tgt)} in {short(it, 50)}')
+        else:
+            rep.fail(rid, c, key,
+                     f'a key entry is produced while iterating `{short(it, 60)}`, not the result of '
+                     'models.Key.get_kids(requested kids)', it)
+    for o in outside:
+        rep.fail(rid, c, f'keys only from the lookup @{short(o, 40)}',
+                 'a key entry is added outside the iteration over models.Key.get_kids(requested kids)', o)
     # item built from that key's own KID and KEY
-    items = [n for n in ast.walk(fn) if isinstance(n, ast.Dict)
-             and any(isinstance(k, ast.Constant) and k.value == 'kid' for k in n.keys)]
-    ok = False
-    for d in items:
-        kv = {k.value: norm(v) for k, v in zip(d.keys, d.values) if isinstance(k, ast.Constant)}
-        if kv.get('kid') == 'self.base64url_encode(key.KID.raw)' \
-                and kv.get('k') == 'self.base64url_encode(key.KEY.raw)':
-            ok = True
+    ok = bool(sources)
+    for tgt, it, elt in sources:
+        names = {x.id for x in ast.walk(tgt) if isinstance(x, ast.Name)}
+        if not isinstance(elt, ast.Dict):
+            ok = False
+            continue
+        kv = {k.value: norm(v) for k, v in zip(elt.keys, elt.values) if isinstance(k, ast.Constant)}
+        m1 = re.fullmatch(r'self\.base64url_encode\((\w+)\.KID\.raw\)', kv.get('kid', ''))
+        m2 = re.fullmatch(r'self\.base64url_encode\((\w+)\.KEY\.raw\)', kv.get('k', ''))
+        if not (m1 and m2 and m1.group(1) == m2.group(1) and m1.group(1) in names):
+            ok = False
     if ok:
         rep.ok(rid, c, 'kid/k from the same stored key')
     else:
@@ -203,198 +243,247 @@ def r11_4(rep: Report) -> None:
     else:
         rep.fail(rid, c, 'decode errors handled',
                  f'handler covers {sorted(names)}; malformed ids raise {sorted(need_set - names)}', tr[0])
-    # base64url: + <-> -, / <-> _, padding stripped / restored
+    # base64url: + <-> -, / <-> _, padding stripped / restored.  Both codecs are interpreted over
+    # terms: the decoder is fed texts of every length class with literal '-' and '_' in them, the
+    # encoder's result is read as a chain of string operations on a base64 call.
+    from ..termeval import SymStr, Term, TermEval, module_consts, class_consts
     enc = need(find_func(cls, 'base64url_encode'), 'base64url_encode')
     dec = need(find_func(cls, 'base64url_decode'), 'base64url_decode')
-
-    def repl(f):
-        return {(n.args[0].value, n.args[1].value) for n in ast.walk(f) if isinstance(n, ast.Call)
-                and isinstance(n.func, ast.Attribute) and n.func.attr == 'replace'
-                and len(n.args) == 2 and all(isinstance(a, ast.Constant) for a in n.args)}
-    e, d = repl(enc), repl(dec)
-    if {('+', '-'), ('/', '_'), ('=', '')} <= e and {('-', '+'), ('_', '/')} <= d:
-        rep.ok(rid, f'{CK}::ClearkeyHandler.base64url_encode', 'alphabet mapping is inverse')
+    consts = dict(module_consts(tree))
+    consts.update(class_consts(cls))
+    dp = dec.args.args[-1].arg
+    cd = f'{CK}::ClearkeyHandler.base64url_decode'
+    mapping_ok, padding_ok, why = True, True, ''
+    for n_ in (4, 6, 7, 8, 10, 11):
+        atoms = ('-', '_') + tuple((dp, i) for i in range(2, n_))
+        paths = [p_ for p_ in TermEval(consts).run(dec, {dp: SymStr(atoms)}) if p_.done == 'return']
+        if len(paths) != 1:
+            raise AnalysisError(f'base64url_decode: {len(paths)} paths for a text of length {n_}')
+        r = paths[0].result
+        if not (isinstance(r, Term) and len(r.args) == 1 and isinstance(r.args[0], SymStr)
+                and r.fn in ('base64.b64decode', 'base64.urlsafe_b64decode', 'base64.standard_b64decode')):
+            raise AnalysisError(f'base64url_decode: result not recognised ({str(r)[:80]})')
+        arg = r.args[0].atoms
+        want_head = ('-', '_') if 'urlsafe' in r.fn else ('+', '/')
+        if arg[:n_] != want_head + atoms[2:]:
+            mapping_ok = False
+            why = f'`-_` decode as `{"".join(x for x in arg[:2] if isinstance(x, str))}` before {r.fn}'
+        pad = arg[n_:]
+        if pad != ('=',) * (-n_ % 4):
+            padding_ok = False
+            why = f'a text of length {n_} is padded with {"".join(map(str, pad))!r}, not {"=" * (-n_ % 4)!r}'
+    if mapping_ok:
+        rep.ok(rid, cd, 'alphabet mapping is inverse')
     else:
-        rep.fail(rid, f'{CK}::ClearkeyHandler.base64url_encode', 'alphabet mapping is inverse',
-                 f'encode maps {sorted(e)}, decode maps {sorted(d)}', enc)
-    pads = {}
-    for n in ast.walk(dec):
-        if isinstance(n, ast.If) and norm(n.test).startswith('padding == '):
-            val = int(norm(n.test).split('== ')[1])
-            add = next((norm(s.value) for s in n.body if isinstance(s, ast.AugAssign)), '')
-            pads[val] = add
-    if pads.get(2) == "'=='" and pads.get(3) == "'='" and 'len(txt) % 4' in norm(dec):
-        rep.ok(rid, f'{CK}::ClearkeyHandler.base64url_decode', 'padding restored')
+        rep.fail(rid, cd, 'alphabet mapping is inverse', why, dec)
+    if padding_ok:
+        rep.ok(rid, cd, 'padding restored')
     else:
-        rep.fail(rid, f'{CK}::ClearkeyHandler.base64url_decode', 'padding restored',
-                 f'padding table is {pads}', dec)
+        rep.fail(rid, cd, 'padding restored', why, dec)
+    ce = f'{CK}::ClearkeyHandler.base64url_encode'
+    ep = enc.args.args[-1].arg
+    paths = [p_ for p_ in TermEval(consts).run(enc, {}) if p_.done == 'return']
+    if len(paths) != 1 or not hasattr(paths[0].result, 'text'):
+        raise AnalysisError('base64url_encode: result not recognised')
+    e_ast = ast.parse(paths[0].result.text, mode='eval').body
+    ops: list[tuple] = []
+    cur = e_ast
+    while isinstance(cur, ast.Call) and isinstance(cur.func, ast.Attribute) \
+            and cur.func.attr in ('replace', 'rstrip', 'strip', 'decode'):
+        ops.append((cur.func.attr,) + tuple(a_.value if isinstance(a_, ast.Constant) else norm(a_) for a_ in cur.args))
+        cur = cur.func.value
+    if isinstance(cur, ast.Call) and call_name(cur) == 'str' and cur.args:
+        cur = cur.args[0]
+    base = call_name(cur) if isinstance(cur, ast.Call) else None
+    if base not in ('base64.b64encode', 'base64.urlsafe_b64encode', 'base64.standard_b64encode') \
+            or norm(cur.args[0]) != ep:
+        raise AnalysisError(f'base64url_encode: not a chain of text operations on base64 of `{ep}`: {norm(e_ast)[:80]}')
+    reps = {(o[1], o[2]) for o in ops if o[0] == 'replace' and len(o) == 3}
+    alpha = 'urlsafe' in base or {('+', '-'), ('/', '_')} <= reps
+    extra = reps - {('+', '-'), ('/', '_'), ('=', '')}
+    strip = ('=', '') in reps or any(o[0] in ('rstrip', 'strip') and o[1:] == ('=',) for o in ops)
+    if alpha and strip and not extra:
+        rep.ok(rid, ce, 'alphabet mapping is inverse', f'{base} {sorted(reps)}')
+    else:
+        rep.fail(rid, ce, 'alphabet mapping is inverse',
+                 f'encode is {base} with {sorted(reps)} / {[o for o in ops if o[0] != "replace"]}: '
+                 'base64url maps + to -, / to _ and drops the = padding', enc)
 
 
-def _sym_eval(e: ast.AST, env: dict) -> list:
-    if isinstance(e, ast.Name):
-        return list(env[e.id])
-    if isinstance(e, ast.Subscript) and isinstance(e.slice, ast.Slice):
-        base = _sym_eval(e.value, env)
-        lo = e.slice.lower.value if e.slice.lower is not None else None
-        hi = e.slice.upper.value if e.slice.upper is not None else None
-        return base[lo:hi]
-    if isinstance(e, ast.Call) and isinstance(e.func, ast.Attribute) and e.func.attr == 'join' \
-            and isinstance(e.func.value, ast.Constant) and isinstance(e.args[0], (ast.List, ast.Tuple)):
-        sep = e.func.value.value
-        out: list = []
-        for i, el in enumerate(e.args[0].elts):
-            if i and sep:
-                out.append(sep)
-            out += _sym_eval(el, env)
-        return out
-    if isinstance(e, ast.Call) and isinstance(e.func, ast.Attribute) and e.func.attr == 'replace' \
-            and len(e.args) == 2 and isinstance(e.args[0], ast.Constant) and e.args[1].value == '':
-        return [x for x in _sym_eval(e.func.value, env) if x != e.args[0].value]
-    raise AnalysisError(f'hex_to_le_guid: cannot evaluate `{norm(e)}` symbolically')
+def _perm(res, name: str) -> list | None:
+    """source positions of the characters of a SymStr result (hex digit index of the input)"""
+    out = []
+    for a_ in res.atoms:
+        if a_ == '-':
+            continue
+        if isinstance(a_, tuple) and a_[0] == name:
+            out.append(a_[1])                                   # text input: hex digit index
+        elif isinstance(a_, tuple) and a_[0] == 'hex' and a_[1][0] == name:
+            out.append(2 * a_[1][1] + a_[2])                    # raw input: byte -> two hex digits
+        else:
+            return None
+    return out
 
 
 def r11_5(rep: Report) -> None:
+    """hex_to_le_guid interpreted over terms (sa/termeval.py): the i-th output character is a named
+    input character, so the permutation is read off the result whatever the code looks like."""
+    from ..termeval import SymStr, TermEval, class_consts, source
     rid = 'R11.5'
     tree = rep.repo.tree(PR)
     cls = need(find_class(tree, 'PlayReady'), 'PlayReady')
     fn = need(find_func(cls, 'hex_to_le_guid'), 'hex_to_le_guid')
     c = f'{PR}::PlayReady.hex_to_le_guid'
-    param = fn.args.args[1].arg
-    env: dict[str, list] = {param: list(range(32))}
-    result = None
-    for st in fn.body:
-        if isinstance(st, ast.Assign) and len(st.targets) == 1 and isinstance(st.targets[0], ast.Name):
-            name = st.targets[0].id
-            try:
-                env[name] = _sym_eval(st.value, env)
-                result = name if name == 'result' else result
-            except (AnalysisError, KeyError):
-                continue
-    if 'result' not in env:
-        raise AnalysisError('hex_to_le_guid: `result` not computed from slices')
-    perm = [x for x in env['result'] if x != '-']
+    params = [a_.arg for a_ in fn.args.args]
+    if len(params) != 3:
+        raise AnalysisError('hex_to_le_guid(clz, guid, raw) signature changed')
+    gp, rp = params[1], params[2]
     want_bytes = [3, 2, 1, 0, 5, 4, 7, 6] + list(range(8, 16))
-    want = [i for b in want_bytes for i in (2 * b, 2 * b + 1)]
-    if perm == want:
-        rep.ok(rid, c, 'bytes_le permutation', 'byte order 3 2 1 0 5 4 7 6 8..15')
-    else:
-        got_bytes = [perm[i] // 2 for i in range(0, len(perm), 2)] if len(perm) == 32 else perm
-        rep.fail(rid, c, 'bytes_le permutation',
-                 f'hex_to_le_guid produces byte order {got_bytes}; RFC 4122 bytes_le is {want_bytes}',
-                 fn)
-    dashes = [i for i, x in enumerate(env['result']) if x == '-']
-    if dashes == [8, 13, 18, 23]:
-        rep.ok(rid, c, 'canonical 8-4-4-4-12 text form')
-    else:
-        rep.fail(rid, c, 'canonical 8-4-4-4-12 text form', f'dash positions {dashes}', fn)
+    want = [i for b_ in want_bytes for i in (2 * b_, 2 * b_ + 1)]
+    dashed = list(source(gp, 32).atoms)
+    for pos in (8, 13, 18, 23):
+        dashed.insert(pos, '-')
+    cases = [
+        ('text', {gp: source(gp, 32), rp: False}, 'str'),
+        ('dashed text', {gp: SymStr(tuple(dashed)), rp: False}, 'str'),
+        ('raw bytes', {gp: source(gp, 16, 'bytes'), rp: True}, 'bytes'),
+    ]
+    for label, env, kind in cases:
+        ev = TermEval(class_consts(cls))
+        paths = [p_ for p_ in ev.run(fn, dict(env)) if p_.done == 'return']
+        if len(paths) != 1 or not isinstance(paths[0].result, SymStr):
+            raise AnalysisError(f'hex_to_le_guid: {label} input not evaluated to one result '
+                                f'({[type(p_.result).__name__ for p_ in paths]})')
+        res = paths[0].result
+        if kind == 'bytes':
+            # raw result: bytes of the input in bytes_le order
+            got = [a_[1] if isinstance(a_, tuple) and a_[0] == gp else None for a_ in res.atoms]
+            if got == want_bytes and res.kind == 'bytes':
+                rep.ok(rid, c, f'bytes_le permutation ({label})', 'byte order 3 2 1 0 5 4 7 6 8..15')
+            else:
+                rep.fail(rid, c, f'bytes_le permutation ({label})',
+                         f'hex_to_le_guid(raw=True) produces byte order {got}; RFC 4122 bytes_le is {want_bytes}', fn)
+            continue
+        perm = _perm(res, gp)
+        if perm == want:
+            rep.ok(rid, c, f'bytes_le permutation ({label})', 'byte order 3 2 1 0 5 4 7 6 8..15')
+        else:
+            got_bytes = [perm[i] // 2 for i in range(0, len(perm), 2)] if perm and len(perm) == 32 else perm
+            rep.fail(rid, c, f'bytes_le permutation ({label})',
+                     f'hex_to_le_guid produces byte order {got_bytes}; RFC 4122 bytes_le is {want_bytes}', fn)
+        dashes = [i for i, x in enumerate(res.atoms) if x == '-']
+        if dashes == [8, 13, 18, 23]:
+            rep.ok(rid, c, f'canonical 8-4-4-4-12 text form ({label})')
+        else:
+            rep.fail(rid, c, f'canonical 8-4-4-4-12 text form ({label})', f'dash positions {dashes}', fn)
     # checksum uses the LE guid of the KID under the key, first 8 bytes
     cs = need(find_func(cls, 'generate_checksum'), 'generate_checksum')
-    t = norm(cs)
-    if 'PlayReady.hex_to_le_guid(keypair.KID.raw, raw=True)' in t and 'AES.MODE_ECB' in t \
-            and 'keypair.KEY.raw' in t and 'msg[:8]' in t:
+    ev = TermEval(class_consts(cls))
+    paths = [p_ for p_ in ev.run(cs, {}) if p_.done == 'return']
+    texts = {getattr(p_.result, 'text', repr(p_.result)) for p_ in paths}
+    ok = bool(texts) and all(
+        re.fullmatch(r'AES\.new\(keypair\.KEY\.raw, AES\.MODE_ECB\)\.encrypt\('
+                     r'PlayReady\.hex_to_le_guid\(keypair\.KID\.raw, raw=True\)\)\[:8\]', t_) for t_ in texts)
+    if ok:
         rep.ok(rid, f'{PR}::PlayReady.generate_checksum', 'AES-ECB(key, kid_le)[:8]')
     else:
         rep.fail(rid, f'{PR}::PlayReady.generate_checksum', 'AES-ECB(key, kid_le)[:8]',
-                 'checksum is not the first 8 bytes of AES-ECB(key, little-endian kid)', cs)
+                 f'checksum is not the first 8 bytes of AES-ECB(key, little-endian kid): {sorted(texts)}', cs)
 
 
 def r11_6(rep: Report) -> None:
     """PlayReady key-seed algorithm (Microsoft, "PlayReady key seed"): with T = the first 30 bytes of
     the seed and K = the key id as little-endian GUID bytes, A = SHA256(T|K), B = SHA256(T|K|T),
-    C = SHA256(T|K|T|K), key[i] = A[i]^A[i+16]^B[i]^B[i+16]^C[i]^C[i+16].  Decided: the sequence of
-    update() inputs of each hash object (through .copy()), the truncation, and the XOR terms."""
-    from ..idioms import hash_update_sequences
+    C = SHA256(T|K|T|K), key[i] = A[i]^A[i+16]^B[i]^B[i+16]^C[i]^C[i+16].  The function is
+    interpreted over terms (sa/termeval.py): hash objects carry the sequence of their inputs through
+    update()/copy(), digests are terms, the key is a list of XOR sets - so a running hash that is
+    snapshotted, three separate hashes and a nested XOR loop all evaluate to the same value."""
+    from ..termeval import ByteArray, Digest, Opaque, TermEval, Xor, class_consts
     rid = 'R11.6'
     rel = 'dashlive/drm/playready.py'
     tree = rep.repo.tree(rel)
     cls = need(find_class(tree, 'PlayReady'), 'PlayReady')
     fn = need(find_func(cls, 'generate_content_key'), 'PlayReady.generate_content_key')
     construct = f'{rel}::PlayReady.generate_content_key'
-    params = [a.arg for a in fn.args.args]
+    params = [a_.arg for a_ in fn.args.args]
     if len(params) < 3:
         raise AnalysisError('generate_content_key(clz, keyId, keySeed) signature changed')
     kid, seed = params[1], params[2]
-    # truncation
-    trunc = None
-    for n in ast.walk(fn):
-        if isinstance(n, ast.Assign) and isinstance(n.value, ast.Subscript) \
-                and norm(n.value.value) == seed and isinstance(n.value.slice, ast.Slice):
-            sl = n.value.slice
-            if sl.lower is None and isinstance(sl.upper, ast.Constant) and sl.upper.value == 30 and sl.step is None:
-                trunc = norm(n.targets[0])
-    if trunc is None:
-        rep.fail(rid, construct, 'seed truncated to 30 bytes',
-                 f'no `{seed}[:30]` truncation of the key seed is assigned', fn)
-        return
-    rep.ok(rid, construct, 'seed truncated to 30 bytes', f'{trunc} = {seed}[:30]')
-    le = [n for n in ast.walk(fn) if isinstance(n, ast.Assign) and norm(n.targets[0]) == kid
-          and isinstance(n.value, ast.Call) and (call_name(n.value) or '').endswith('hex_to_le_guid')
-          and any(k.arg == 'raw' and isinstance(k.value, ast.Constant) and k.value.value is True
-                  for k in n.value.keywords)]
-    if le:
-        rep.ok(rid, construct, 'key id hashed as little-endian GUID bytes')
-    else:
-        rep.fail(rid, construct, 'key id hashed as little-endian GUID bytes',
-                 f'`{kid}` is no longer converted with hex_to_le_guid(raw=True) before hashing', fn)
-    seqs = hash_update_sequences(fn)
-    if seqs is None:
-        rep.note('R11.6: hash objects are updated inside branches/loops - input sequences not decided')
-        rep.ok(rid, construct, 'hash inputs', 'not decided (non straight-line)')
-        return
-    want = {(trunc, kid): 'A', (trunc, kid, trunc): 'B', (trunc, kid, trunc, kid): 'C'}
-    # digests actually used in the XOR
-    outs: dict[str, str] = {}
-    for n in ast.walk(fn):
-        if isinstance(n, ast.Assign) and isinstance(n.targets[0], ast.Name):
-            for c in ast.walk(n.value):
-                if isinstance(c, ast.Call) and (call_name(c) or '').endswith('.digest'):
-                    outs[n.targets[0].id] = call_name(c)[:-7]
-    xor_terms: set[tuple[str, str]] = set()
-    xor_node = None
-    for n in ast.walk(fn):
-        if isinstance(n, ast.Assign) and isinstance(n.value, ast.BinOp) and isinstance(n.value.op, ast.BitXor):
-            xor_node = n
-            for t in ast.walk(n.value):
-                if isinstance(t, ast.Subscript) and isinstance(t.value, ast.Name):
-                    xor_terms.add((t.value.id, norm(t.slice)))
-    if xor_node is None:
-        rep.fail(rid, construct, 'xor fold', 'the XOR fold of the three digests is gone', fn)
-        return
-    roles: dict[str, str] = {}
-    for outvar in sorted({v for v, _ in xor_terms}):
-        h = outs.get(outvar)
-        seq = tuple(seqs.get(h, ())) if h else ()
-        role = want.get(seq)
-        if role is None:
-            rep.fail(rid, construct, f'hash inputs of {outvar}',
-                     f'`{outvar}` is the digest of update({", ".join(seq) or "?"}); the key-seed '
-                     f'algorithm hashes only ({trunc}|{kid}), ({trunc}|{kid}|{trunc}) and '
-                     f'({trunc}|{kid}|{trunc}|{kid}) - an untruncated or re-ordered input changes every '
-                     'derived key', xor_node)
+    ev = TermEval(class_consts(cls))
+    paths = [p_ for p_ in ev.run(fn, {}) if p_.done == 'return']
+    if not paths:
+        raise AnalysisError('generate_content_key: no returning path evaluated')
+    keysize = 16
+    for n_, p_ in enumerate(paths, 1):
+        res = p_.result
+        tag = f' (path {n_}: {"; ".join(p_.notes)[:80]})' if len(paths) > 1 else ''
+        if not (isinstance(res, list) and all(isinstance(x, Xor) for x in res)):
+            rep.fail(rid, construct, 'xor fold',
+                     f'the returned key is not a byte array of XOR folds (evaluates to {str(res)[:80]}){tag}', fn)
+            continue
+        if len(res) != keysize:
+            rep.fail(rid, construct, 'xor fold', f'the key has {len(res)} bytes, not {keysize}{tag}', fn)
+            continue
+        digests: list[Digest] = []
+        for x in res:
+            for t_ in x.terms:
+                if t_[0] == 'byte' and isinstance(t_[1], Digest) and t_[1] not in digests:
+                    digests.append(t_[1])
+        digests.sort(key=lambda d: len(d.inputs))
+        # inputs: T = <seed>[:30], K = hex_to_le_guid(<kid>, raw=True)
+        T = K = None
+        problems = []
+        for d in digests:
+            for v in d.inputs:
+                txt = v.text if isinstance(v, Opaque) else repr(v)
+                if re.fullmatch(r'.+\[:30\]', txt) and 'hex_to_le_guid' not in txt:
+                    T = T or v
+                elif re.search(r'hex_to_le_guid\(.*raw=True\)$', txt):
+                    K = K or v
+        if T is None:
+            rep.fail(rid, construct, 'seed truncated to 30 bytes',
+                     f'no digest input is the key seed truncated to its first 30 bytes{tag}', fn)
         else:
-            roles[outvar] = role
-            rep.ok(rid, construct, f'hash inputs of {outvar}', f'SHA-{role}: ' + '|'.join(seq))
-    if sorted(roles.values()) == ['A', 'B', 'C']:
-        rep.ok(rid, construct, 'three distinct digests A, B, C')
-    elif len(roles) == len({v for v, _ in xor_terms}):
-        rep.fail(rid, construct, 'three distinct digests A, B, C',
-                 f'the XOR fold combines digests {sorted(roles.values())}, not exactly A, B and C', xor_node)
-    idxs = {i for _, i in xor_terms}
-    lo = [i for i in idxs if '+' not in i]
-    hi = [i for i in idxs if '+' in i]
-    consts = {}
-    for st in cls.body:
-        if isinstance(st, ast.Assign) and isinstance(st.value, ast.Constant):
-            consts[norm(st.targets[0])] = st.value.value
-    half_ok = len(lo) == 1 and len(hi) == 1 and hi[0].startswith(lo[0] + ' + ') and \
-        consts.get(hi[0].split(' + ', 1)[1].split('.')[-1], hi[0].split(' + ', 1)[1]) in (16, '16')
-    per = {v: {i for vv, i in xor_terms if vv == v} for v in {v for v, _ in xor_terms}}
-    if half_ok and all(len(x) == 2 for x in per.values()) and len(per) == 3:
-        rep.ok(rid, construct, 'xor fold', 'each digest contributes bytes i and i+16')
-    else:
-        rep.fail(rid, construct, 'xor fold',
-                 f'the XOR fold uses terms {sorted(xor_terms)}: each of the three digests must '
-                 'contribute exactly its bytes i and i+16', xor_node)
+            rep.ok(rid, construct, 'seed truncated to 30 bytes', f'T = {T.text}')
+        if K is None:
+            rep.fail(rid, construct, 'key id hashed as little-endian GUID bytes',
+                     f'`{kid}` is not converted with hex_to_le_guid(raw=True) before hashing{tag}', fn)
+        else:
+            rep.ok(rid, construct, 'key id hashed as little-endian GUID bytes', f'K = {K.text}')
+        want = {(T, K): 'A', (T, K, T): 'B', (T, K, T, K): 'C'}
+        roles: dict = {}
+        for d in digests:
+            role = want.get(d.inputs) if T is not None and K is not None else None
+            shown = '|'.join(getattr(v, 'text', repr(v)) for v in d.inputs)
+            if role is None:
+                rep.fail(rid, construct, f'hash inputs of digest #{digests.index(d) + 1}',
+                         f'a digest of update({shown or "?"}) enters the key; the key-seed algorithm hashes only '
+                         '(T|K), (T|K|T) and (T|K|T|K) with T = seed[:30], K = little-endian key id - an '
+                         f'untruncated or re-ordered input changes every derived key{tag}', fn)
+            else:
+                roles[d] = role
+                rep.ok(rid, construct, f'hash inputs of SHA-{role}', shown)
+        if sorted(roles.values()) == ['A', 'B', 'C'] and len(digests) == 3:
+            rep.ok(rid, construct, 'three distinct digests A, B, C')
+        elif len(roles) == len(digests):
+            rep.fail(rid, construct, 'three distinct digests A, B, C',
+                     f'the XOR fold combines digests {sorted(roles.values())}, not exactly A, B and C{tag}', fn)
+        bad_i = None
+        for i, x in enumerate(res):
+            exp = frozenset(('byte', d, j) for d in digests for j in (i, i + keysize))
+            if x.terms != exp or len(digests) != 3:
+                bad_i = (i, x)
+                break
+        if bad_i is None:
+            rep.ok(rid, construct, 'xor fold', 'key[i] = xor of bytes i and i+16 of each digest')
+        else:
+            i, x = bad_i
+            shown = sorted((('ABC?'[digests.index(t_[1])] if t_[0] == 'byte' and t_[1] in digests and
+                             digests.index(t_[1]) < 3 else '?') + f'[{t_[2] if t_[0] == "byte" else t_[1]}]')
+                           for t_ in x.terms)
+            rep.fail(rid, construct, 'xor fold',
+                     f'key[{i}] folds {shown}: each of the three digests must contribute exactly its bytes '
+                     f'i and i+16{tag}', fn)
 
 
 def analyse(rep: Report) -> None:
